@@ -519,7 +519,7 @@ def oracle_pgm(scen, sc, T: Tables, X):
 def truth(scen, x):
     idx = 0
     for v in range(scen["n"]):
-        idx = idx * 2 + int(x[v])
+        idx = idx * 2 + (int(x[v]) if v < len(x) else 0)  # variables beyond the circuit's scope: f does not depend on them
     return bool(scen["table"][idx])
 
 
